@@ -203,6 +203,9 @@ func runConc(toks []string) (string, string) {
 	w := gowarc.NewWarcFileWriter(opts...)
 	var lmu sync.Mutex
 	var calls []*callLog
+	// the history of the run: "+g" a call of goroutine g starts, "-g:r" it has returned (r: n = no
+	// responses, k = k responses, - = Rotate/Close); the model decides whether it is one of its runs
+	var hist []string
 	var closeReturned int32
 	openAtClose := ""
 	next := int32(0)
@@ -214,6 +217,10 @@ func runConc(toks []string) (string, string) {
 			closedHere := false
 			for _, o := range scripts[g] {
 				cl := &callLog{gor: g, kind: o.kind, afterClose: closedHere}
+				lmu.Lock()
+				hist = append(hist, fmt.Sprintf("+%d", g))
+				lmu.Unlock()
+				res := "-"
 				switch o.kind {
 				case "w":
 					var batch []gowarc.WarcRecord
@@ -225,6 +232,11 @@ func runConc(toks []string) (string, string) {
 					resps := w.Write(batch...)
 					cl.nilResp = resps == nil
 					cl.resps = resps
+					if resps == nil {
+						res = "n"
+					} else {
+						res = fmt.Sprint(len(resps))
+					}
 				case "r":
 					w.Rotate()
 				case "c":
@@ -243,6 +255,7 @@ func runConc(toks []string) (string, string) {
 				}
 				lmu.Lock()
 				calls = append(calls, cl)
+				hist = append(hist, fmt.Sprintf("-%d:%s", g, res))
 				lmu.Unlock()
 			}
 		}(g)
@@ -337,7 +350,7 @@ func runConc(toks []string) (string, string) {
 		}
 		rd.Close()
 	}
-	obs := fmt.Sprintf("files=%d;records=%d;calls=%d", len(names), total, len(calls))
+	obs := fmt.Sprintf("files=%d;records=%d;calls=%d;hist=%s", len(names), total, len(calls), strings.Join(hist, ","))
 	for _, cl := range calls {
 		if cl.kind != "w" {
 			continue
